@@ -69,29 +69,38 @@ def gen_case(rng):
     order = used + surplus_supplied
     rng.shuffle(order)
     data = F.gen_trace(rng, order or ["a"], n)
-    return {"kind": kind, "f": f, "n": n, "data": data, "order": order, "decl": used + surplus_decl}
+    # some used variables are objects of a user-defined type read through a field; the data set may have a column nobody reads,
+    # with entries that are not numbers
+    struct = sorted(v for v in used if rng.random() < 0.5) if rng.random() < 0.2 else []
+    junk = rng.choice([["idle", "run"], [None], ["x"]]) if rng.random() < 0.15 else None
+    return {"kind": kind, "f": f, "n": n, "data": data, "order": order, "decl": used + surplus_decl, "struct": struct, "junk": junk}
 
 
 def run_impl(case):
-    text = "out = " + F.to_text(case["f"])
+    struct = case.get("struct") or []
+    text = impl.struct_text("out = " + F.to_text(case["f"]), struct)
     data, n, order = case["data"], case["n"], case["order"]
     mon = case["kind"].split("-")[1]
 
     def go():
+        from ..msgs import Msg
         if mon == "offd":
-            spec = impl.make_spec("offd", text, case["decl"])
+            spec = impl.make_spec("offd", text, case["decl"], struct=struct)
             spec.parse()
             ds = {"time": list(range(n))}
             for v in order:
-                ds[v] = list(data[v])
+                ds[v] = impl.wrap(data[v], v in struct)
+            if case.get("junk"):
+                ds["mode"] = [case["junk"][i % len(case["junk"])] for i in range(n)]
             res = [p[1] for p in spec.evaluate(ds)]
             spec.evaluate(ds)                  # the same object and data set once more: must not raise either
             return res
-        spec = impl.make_spec("ond", text, case["decl"])
+        spec = impl.make_spec("ond", text, case["decl"], struct=struct)
         spec.parse()
         if mon == "past":
             spec.pastify()
-        return [spec.update(i, [(v, data[v][i]) for v in order]) for i in range(n)]
+        return [spec.update(i, [(v, Msg(data[v][i]) if v in struct else data[v][i]) for v in order]
+                            + ([("mode", case["junk"][0])] if case.get("junk") else [])) for i in range(n)]
     return text, impl.guarded(go)
 
 
@@ -124,7 +133,7 @@ def model(cases):
 
 def check_case(ctx, case, m):
     text, out = run_impl(case)
-    rep = {"kind": case["kind"], "spec": text, "formula": F.to_proto(case["f"]), "n": case["n"], "data": case["data"],
+    rep = {"struct": case.get("struct") or [], "junk": case.get("junk"), "kind": case["kind"], "spec": text, "formula": F.to_proto(case["f"]), "n": case["n"], "data": case["data"],
            "order": case["order"], "declared": case["decl"], "impl": out, "model": m}
     ctx.nontrivial.add((case["kind"], text, case["n"], tuple(case["order"]), tuple(case["decl"])))
     if case["kind"].startswith("ok"):
@@ -204,7 +213,7 @@ def replay(ctx, obj):
         from .. import dense
         return dense.replay_wf(ctx, obj)
     c = {"kind": obj["kind"], "f": F.from_proto(obj["formula"]), "n": obj["n"], "order": obj["order"], "decl": obj["declared"],
-         "data": {k: [float(x) for x in v] for k, v in obj["data"].items()}}
+         "data": {k: [float(x) for x in v] for k, v in obj["data"].items()}, "struct": obj.get("struct") or [], "junk": obj.get("junk")}
     m, = model([c])
     v, d = check_case(Ctx(ctx.id, ctx.tier, ctx.seed), c, m)
     return (v is None), (v.what if v else "outcome as required on the replayed case")
